@@ -178,7 +178,7 @@ class Ctx:
             if frame is not None and (not frames or frames[-1] is not frame) and not self.record:
                 frames = [frame]
         v = {"property": self.prop, "key": key, "what": what, "observed": observed, "expected": expected,
-             "note": note, "config": self.cfg.to_json(), "frames": [x.hex() for x in frames[-400:]],
+             "note": note, "config": self.cfg.to_json(), "frames": [x if isinstance(x, str) else x.hex() for x in frames[-400:]],
              "frames_dropped": max(0, len(frames) - 400), "seed": self.seed, "shard": self.shard,
              "tier": self.tier, "profile": self.profile}
         if extra:
